@@ -16,6 +16,10 @@ SIZES = ['norm', 'norm', 'norm', 'small', 'half', 'big', 'full', 'zero', 'one', 
 # scalar classes of the quantifier: reduce to zero only after reduction, negative, zero digits inside recodings
 SCALAR_SIZES = ['order', 'order2', 'order3', 'negord', 'zdig', 'lowzero', 'pow2', 'ones', 'zero', 'one']
 SCALAR_OPS = ('ep_mul', 'g1_mul', 'g2_mul', 'gt_exp', 'bn_rec', 'bn_mxp', 'fp_exp')
+# array-taking (simultaneous / batch) ops: the element count is part of the quantifier (all n >= 0)
+ARRAY_OPS = {'bn_lag', 'bn_evl', 'bn_mod_inv_sim', 'bn_mxp_sim_lot', 'fp_inv_sim', 'fp2_inv_sim', 'ep_norm_sim', 'ep_mul_sim_lotn',
+             'ep_mul_sim_dig', 'pc_map_simn', 'g1_mul_sim_lot', 'g2_mul_sim_lot', 'ep2_norm_sim', 'mpc_sss'}
+COUNTS = [0, 0, 1, 1, 2, 3, 4, 5, 8, 9, 11, 12]
 # ops whose input classes must stay inside the documented domain
 SMALL_ONLY = {'bn_gen_prime_small', 'bn_factor', 'cp_rsa_gen_small'}
 
@@ -43,6 +47,8 @@ def gen_plan(rng, tier, config, opts):
             name, rng.bytes(8).hex(), size, 'none' if capacity else 'all', maxk, rng.below(1 << 30), rng.below(1 << 30), rng.below(1 << 30))
         if rng.chance(0.2):
             ln += ' pair=%d' % (1 + rng.below(1000))
+        if name in ARRAY_OPS:
+            ln += ' n=%d' % rng.choice(COUNTS)
         lines.append(ln)
     return '\n'.join(lines) + '\n'
 
